@@ -64,6 +64,9 @@ class Cfg(object):
         # recursion: a function may call itself (bounded by W.rbudget), so that several
         # frames - and several generator-likes - share one code object
         self.on["recurse"] = tape.choose(3) == 2
+        # all managers of one class compare (and hash) equal, like dataclass managers with equal
+        # fields: what stackscope reports must go by identity
+        self.on["eqmgr"] = tape.choose(4) == 3
         for k, v in force.items():
             if k in self.on:
                 self.on[k] = v
